@@ -55,7 +55,10 @@ RULE_ADDED = (
               ' '
               'Round 15: images read through an anonymous pipe (hash, message). '
               ' '
-              'Round 16: signing runs over longer files left by an earlier run. ')
+              'Round 16: signing runs over longer files left by an earlier run. '
+              ' '
+              'Round 17: images in a directory literally named ~ (or ~root), HOME holding other'
+              ' images under the same names. ')
 RULE = RULE + " " + RULE_ADDED.strip()
 ASSUMPTIONS = [
     "own Intel-HEX writer (pv/gen/ihex.py); areas do not overlap",
@@ -222,10 +225,15 @@ def tree(root):
 
 def run_case(acc, cseed, tmpdir, state):
     cwd = os.getcwd()
+    home = os.environ.get("HOME")
     try:
         return run_case_(acc, cseed, tmpdir, state)
     finally:
         os.chdir(cwd)
+        if home is None:
+            os.environ.pop("HOME", None)
+        else:
+            os.environ["HOME"] = home
 
 
 def run_case_(acc, cseed, tmpdir, state):
@@ -242,7 +250,7 @@ def run_case_(acc, cseed, tmpdir, state):
     # image (ui/app.hex, signer/app.hex ...), or names that are prefixes of each other
     naming = rng.choice(["distinct", "distinct", "same-name-other-dir", "prefix-names",
                          "pattern-characters", "data-like-names",
-                         "through-a-symlinked-directory"])
+                         "through-a-symlinked-directory", "tilde-directory"])
     odd_names = []
     if naming == "pattern-characters":
         # names that mean something else to a shell, a glob, a format string or a path
@@ -280,6 +288,20 @@ def run_case_(acc, cseed, tmpdir, state):
             p = os.path.join(tmpdir, "ui", "bin", "..", "app%d.hex" % i)
             ihex.write(rng, ihex.gen_areas(rng, max_areas=2),
                        os.path.join(tmpdir, "ui", "app%d.hex" % i))
+        elif naming == "tilde-directory":
+            # the images sit in a directory literally named "~" (or "~root") of the working
+            # directory and are given as ~/appN.hex, unexpanded: to the tools that is a file
+            # name; the home directory (HOME points to a scratch one) holds other images
+            # under the same relative names
+            os.chdir(tmpdir)
+            td = ["~", "~root"][cseed % 2]
+            home = os.path.join(tmpdir, "home")
+            for d_ in (td, home, os.path.join(home, td)):
+                os.makedirs(os.path.join(tmpdir, d_) if not os.path.isabs(d_) else d_,
+                            exist_ok=True)
+            os.environ["HOME"] = home
+            p = os.path.join(td, "app%d.hex" % i)
+            ihex.write(rng, ihex.gen_areas(rng, max_areas=2), os.path.join(home, "app%d.hex" % i))
         elif naming == "data-like-names":
             # images addressed by a bare relative name (the tools run in their directory)
             # that reads like data: 64 hex digits (a hash), 0x + hex, a number, an option
